@@ -116,6 +116,7 @@ fn run_one(w: &mut Worker, line: &str, per_case: Duration) -> String {
 /// runs the lines in sandboxed worker processes (several in parallel; every case is self-contained, results are
 /// reported in case order): a panic is caught inside the worker; an abort, stack overflow, out-of-memory kill or
 /// time-out ends the worker and is attributed to the case
+const HEAVY_CASES: [&str; 9] = ["chk_torn_giant", "chk_codec_big", "chk_startpos_sparse", "chk_valid_sparse", "chk_many_contents", "chk_history_independent", "chk_big_shared", "chk_dedup_run", "chk_hconc"];
 fn run_isolated(lines: &[String], per_case: Duration) -> Vec<String> {
     use std::sync::atomic::{AtomicUsize, Ordering};
     use std::sync::{Arc, Mutex};
@@ -133,7 +134,11 @@ fn run_isolated(lines: &[String], per_case: Duration) -> Vec<String> {
                 if i >= lines.len() {
                     break;
                 }
-                let r = run_one(&mut w, &lines[i], per_case);
+                // the size-only heavy cases get a short limit (their time-out is inconclusive, see below): a slow or
+                // memory-starved machine must not turn the quick tier into hours
+                let heavy = HEAVY_CASES.iter().any(|h| lines[i].starts_with(h));
+                let limit = if heavy { per_case.min(Duration::from_secs(420)) } else { per_case };
+                let r = run_one(&mut w, &lines[i], limit);
                 out.lock().unwrap()[i] = Some(r);
             }
             let _ = w.child.kill();
@@ -205,7 +210,7 @@ fn main() {
             // the cases that move gigabytes or build millions of tiles are about sizes, not about termination: when such a
             // case runs into the time limit the machine was too slow for it, which says nothing about the code; it is
             // counted as inconclusive (and shows in the evidence), not reported as a violation
-            const HEAVY: [&str; 9] = ["chk_torn_giant", "chk_codec_big", "chk_startpos_sparse", "chk_valid_sparse", "chk_many_contents", "chk_history_independent", "chk_big_shared", "chk_dedup_run", "chk_hconc"];
+            const HEAVY: [&str; 9] = HEAVY_CASES;
             let results: Vec<String> = results
                 .into_iter()
                 .zip(lines.iter())
